@@ -7,6 +7,7 @@ No file under /repo is modified; the seam is the module attribute
 """
 import errno
 import io
+import os
 import sys
 import threading
 
@@ -59,6 +60,216 @@ class FaultyStream(io.BytesIO):
         return super().close()
 
 
+class FaultyFile:
+    """A binary file the LIBRARY opened itself (open / io.open / os.fdopen /
+    pathlib, importlib.resources): the real file object stays underneath (its
+    descriptor is really open and really closed), the bytes are served from
+    memory with the run's truncation / inversion applied, and every
+    read/seek/tell/close is a decision and fault point of the owning client -
+    so that a read error surfaces INSIDE the library's own `with open(...)`."""
+
+    def __init__(self, real, client, name, mod):
+        self._real = real
+        self._cl = client
+        self._name = name
+        try:
+            self._fd = real.fileno()
+        except Exception:  # noqa
+            self._fd = None
+        data = real.read()
+        if mod is not None:
+            kind, arg = mod
+            if kind == "eof":
+                data = data[:arg % (len(data) + 1)]
+            elif kind == "flip" and data:
+                bit = arg % (len(data) * 8)
+                b = bytearray(data)
+                b[bit // 8] ^= 1 << (bit % 8)
+                data = bytes(b)
+        self._buf = io.BytesIO(data)
+
+    def _ev(self, what):
+        cl = self._cl
+        if cl is not None and current_client() is cl:
+            cl.on_io(what, self._name)
+
+    def read(self, *a):
+        self._ev("read")
+        return self._buf.read(*a)
+
+    read1 = read
+
+    def readinto(self, b):
+        self._ev("read")
+        return self._buf.readinto(b)
+
+    def readline(self, *a):
+        self._ev("read")
+        return self._buf.readline(*a)
+
+    def readlines(self, *a):
+        self._ev("read")
+        return self._buf.readlines(*a)
+
+    def __iter__(self):
+        return iter(self.readlines())
+
+    def seek(self, *a):
+        self._ev("seek")
+        return self._buf.seek(*a)
+
+    def tell(self):
+        self._ev("tell")
+        return self._buf.tell()
+
+    def close(self):
+        if not self._real.closed:
+            self._ev("close")
+            if self._cl is not None and self._fd is not None:
+                self._cl.world.lib_fds.discard(self._fd)
+        return self._real.close()
+
+    @property
+    def closed(self):
+        return self._real.closed
+
+    def fileno(self):
+        return self._real.fileno()
+
+    def readable(self):
+        return True
+
+    def seekable(self):
+        return True
+
+    def writable(self):
+        return False
+
+    def __enter__(self):
+        return self
+
+    def __exit__(self, *a):
+        self.close()
+        return False
+
+    def __getattr__(self, name):
+        return getattr(self._real, name)
+
+
+_file_seam = False
+_HARNESS_DIR = os.path.dirname(os.path.abspath(__file__))
+
+
+def _library_caller(depth=2, limit=12):
+    """True iff the nearest library-or-harness frame above the caller is a
+    library frame (the library, possibly through pathlib / importlib.resources
+    / zipfile, is the one opening the file - not the harness, and not the
+    harness's own stream seam calling into pkg_resources)."""
+    f = sys._getframe(depth)
+    n = 0
+    while f is not None and n < limit:
+        fn = f.f_code.co_filename
+        if fn.startswith(env.LIB_PREFIX):
+            return True
+        if fn.startswith(_HARNESS_DIR):
+            return False
+        f = f.f_back
+        n += 1
+    return False
+
+
+def install_file_seam():
+    """Third I/O seam: binary read-only files the library opens by itself."""
+    global _file_seam
+    if _file_seam:
+        return
+    _file_seam = True
+    import builtins
+    real_open = builtins.open
+    real_fdopen = os.fdopen
+
+    def _wrap(opener, file, mode, a, k):
+        cl = current_client()
+        if cl is None or not cl.io_enabled or cl.op is None or not isinstance(mode, str) \
+                or "b" not in mode or any(c in mode for c in "wax+") or not _library_caller(3):
+            return opener(file, mode, *a, **k)
+        if isinstance(file, int):
+            base = "fd"
+            try:
+                base = os.path.basename(os.readlink("/proc/self/fd/%d" % file))
+            except OSError:
+                pass
+        else:
+            base = os.path.basename(os.fspath(file)) if not isinstance(file, bytes) \
+                else os.path.basename(file).decode("utf8", "replace")
+        mod = cl.on_open(base)          # may raise an injected open error
+        real = opener(file, mode, *a, **k)
+        try:
+            return FaultyFile(real, cl, base, mod)
+        except BaseException:
+            real.close()
+            raise
+
+    def sim_open(file, mode="r", *a, **k):
+        return _wrap(real_open, file, mode, a, k)
+
+    def sim_fdopen(fd, mode="r", *a, **k):
+        return _wrap(real_fdopen, fd, mode, a, k)
+    # raw descriptors: the simulator follows which ones the library owns.  A
+    # close of a descriptor the library has already closed ("stale close": a
+    # double close on an error path) is harmless alone and closes SOMEBODY
+    # ELSE's file when another thread was handed that number in between.  The
+    # simulated OS plays that legal, adversarial schedule deliberately: the
+    # closing client lets the others run until one of them has opened a file
+    # (it is parked right after its os.open), does its close, and the parked
+    # client resumes once the closer has opened its next file or ended its
+    # operation.
+    real_os_open = os.open
+    real_os_close = os.close
+
+    def sim_os_open(path, flags, *a, **k):
+        cl = current_client()
+        if cl is None or not cl.io_enabled or cl.op is None or not _library_caller(2):
+            return real_os_open(path, flags, *a, **k)
+        w = cl.world
+        fd = real_os_open(path, flags, *a, **k)
+        w.lib_fds.add(fd)
+        w.os_opens += 1
+        if w.stale_waiter is cl:
+            w.stale_waiter = None
+        elif w.stale_waiter is not None:
+            w.probe("parked_after_open_during_stale_close")
+            cl.wait_for(lambda: w.stale_waiter is None)
+        return fd
+
+    def sim_os_close(fd):
+        cl = current_client()
+        if cl is None or not cl.io_enabled or cl.op is None or not _library_caller(2):
+            return real_os_close(fd)
+        w = cl.world
+        if fd in w.lib_fds:
+            w.lib_fds.discard(fd)
+            return real_os_close(fd)
+        w.probe("stale_fd_close")
+        if w.stale_waiter is None and len(w.clients) > 1:
+            w.stale_waiter = cl
+            n0 = w.os_opens
+            for _ in range(24):
+                if w.os_opens > n0:
+                    break
+                cl.yield_now()
+            if w.os_opens == n0:
+                w.stale_waiter = None      # nobody opened anything: nothing to collide with
+        return real_os_close(fd)
+    sim_os_open._wavesim = sim_os_close._wavesim = True
+    sim_open._wavesim = sim_fdopen._wavesim = True
+    builtins.open = sim_open
+    io.open = sim_open
+    os.fdopen = sim_fdopen
+    os.open = sim_os_open
+    os.close = sim_os_close
+
+
 _real_np_load = None
 
 
@@ -75,7 +286,8 @@ def install_numpy_load_seam():
 
     def load(file, *a, **k):
         cl = current_client()
-        if cl is None or not cl.io_enabled or cl.op is None or isinstance(file, FaultyStream) \
+        if cl is None or not cl.io_enabled or cl.op is None \
+                or isinstance(file, (FaultyStream, FaultyFile)) \
                 or not sys._getframe(1).f_code.co_filename.startswith(env.LIB_PREFIX):
             # not a simulated client, or the harness's own use of numpy.load
             return _real_np_load(file, *a, **k)
@@ -811,6 +1023,7 @@ def fresh_library(patch_stream=False):
     if patch_stream and L.orig_resource_stream is not None:
         L.coeffs.resource_stream = make_resource_stream(L.orig_resource_stream)
     if patch_stream:
+        install_file_seam()
         install_numpy_load_seam()
         ld = L.coeffs.__dict__.get("load")
         if ld is _real_np_load:
